@@ -14,9 +14,12 @@
     where a blob field is the byte string itself, and the other fields are texts:
       D     = q<num>/<den> | nan | inf | non
       meta  = U | M;<format or ~>;w;h;X;n | M;<format or ~>;w;h;X;t;D;D   (X = 1 when tag 282 was read)
-      part  = name;content type;blob index or ~;cls;rel
-      slide = rid=target;rid=target;...    (empty target: not an image relationship)
+      part  = name;content type;blob index or ~;cls;rel;fix   (identities are given in order: 1, 2, ...)
+      slide = rid=target;rid=target;...    (empty target: not an image relationship; a target is the
+                                            name of a listed part and is resolved to its identity)
       op    = a | r | o;s;k | i;s;blob;P;cx;cy | i;s;blob;H;vw;vh | i;s;blob;R
+            | x;s (slide s deleted) | d;s;k (relationship rIdk of slide s dropped)
+    Outcome of a removal: the names of the parts the image relationships still lead to.
     The digest function is instantiated with the identity (two blobs have the same
     digest exactly when they are the same bytes) and fl with fl64. *)
 From Coq Require Import QArith.
@@ -111,39 +114,61 @@ Fixpoint parse_all {A} (f : str -> option A) (l : list str) : option (list A) :=
               end
   end.
 
-Definition parse_part (imgs : list image) (s : str) : option part :=
+Definition parse_part (imgs : list image) (id : N) (s : str) : option part :=
   match split_on c_semi s with
-  | [name; ct; b; cls; rel] =>
+  | [name; ct; b; cls; rel; fx] =>
       let im := match b with
                 | [126%N] => Some (mkImage [] Unidentified)
                 | _ => match parse_nat b with Some i => nth_error imgs i | None => None end
                 end in
-      match im, parse_bool cls, parse_bool rel with
-      | Some i, Some c, Some r => Some (mkPart name ct (i_blob i) c r (i_meta i))
-      | _, _, _ => None
+      match im, parse_bool cls, parse_bool rel, parse_bool fx with
+      | Some i, Some c, Some r, Some f => Some (mkPart id name ct (i_blob i) c f r (i_meta i))
+      | _, _, _, _ => None
       end
   | _ => None
   end.
 
-Definition parse_rel (s : str) : option rel :=
+(** parts get the identities id, id + 1, ... in the order listed *)
+Fixpoint parse_parts (imgs : list image) (id : N) (l : list str) : option (list part) :=
+  match l with
+  | [] => Some []
+  | x :: r => match parse_part imgs id x, parse_parts imgs (N.succ id) r with
+              | Some a, Some b => Some (a :: b)
+              | _, _ => None
+              end
+  end.
+
+Definition id_of_name (ps : list part) (nm : str) : option N :=
+  match find (fun p => str_eqb (p_name p) nm) ps with Some p => Some (p_id p) | None => None end.
+
+Definition parse_rel (ps : list part) (s : str) : option rel :=
   match split_on c_eq s with
   | [k; t] => match parse_N k with
-              | Some n => Some (n, match t with [] => None | _ => Some t end)
+              | Some n => match t with
+                          | [] => Some (n, None)
+                          | _ => match id_of_name ps t with Some i => Some (n, Some i) | None => None end
+                          end
               | None => None
               end
   | _ => None
   end.
 
-Definition parse_slide (s : str) : option (list rel) :=
+Definition parse_slide (ps : list part) (s : str) : option (list rel) :=
   match s with
   | [] => Some []
-  | _ => parse_all parse_rel (split_on c_semi s)
+  | _ => parse_all (parse_rel ps) (split_on c_semi s)
   end.
 
 Definition parse_op (imgs : list image) (s : str) : option op :=
   match split_on c_semi s with
   | [[97%N]] => Some OAddSlide
   | [[114%N]] => Some OReload
+  | [[120%N]; sl] => match parse_nat sl with Some a => Some (ODelSlide a) | None => None end
+  | [[100%N]; sl; k] =>
+      match parse_nat sl, parse_N k with
+      | Some a, Some b => Some (ODropRel a b)
+      | _, _ => None
+      end
   | [[111%N]; sl; k] =>
       match parse_nat sl, parse_nat k with
       | Some a, Some b => Some (OOccupy a b)
@@ -175,8 +200,9 @@ Definition show_pair (p : Z * Z) : str := semis [show_Z (fst p); show_Z (snd p)]
 Definition show_outcome (o : outcome) : str :=
   match o with
   | OutUnit => [117%N]                                     (* u *)
-  | OutImg name rid e ct a b =>
+  | OutImg _ name rid e ct a b =>
       semis [show_str name; show_N rid; show_str e; show_str ct; show_Z a; show_Z b]
+  | OutStore names => semis (map show_str names)
   end.
 
 Definition show_part (p : part) : str :=
@@ -214,14 +240,16 @@ Definition run_history (rest : list str) : str :=
                   match take_n ns r4 with
                   | None => w_badcase
                   | Some (slides_s, ops_s) =>
-                    match parse_all (parse_part imgs) parts_s,
-                          parse_all parse_slide slides_s,
-                          parse_all (parse_op imgs) ops_s with
-                    | Some ps, Some sls, Some ops =>
-                        let (st, outs) := run H_id fl64 (mkState ps sls) ops in
-                        fields [ join_with [c_comma] (map (show_res show_outcome) outs);
-                                 join_with [c_comma] (map show_part (filter p_rel (st_parts st))) ]
-                    | _, _, _ => w_badcase
+                    match parse_parts imgs 1%N parts_s with
+                    | None => w_badcase
+                    | Some ps =>
+                      match parse_all (parse_slide ps) slides_s, parse_all (parse_op imgs) ops_s with
+                      | Some sls, Some ops =>
+                          let (st, outs) := run H_id fl64 (mkState ps sls (N.of_nat (length ps) + 1)%N) ops in
+                          fields [ join_with [c_comma] (map (show_res show_outcome) outs);
+                                   join_with [c_comma] (map show_part (filter (imgrel (st_slides st)) (st_heap st))) ]
+                      | _, _ => w_badcase
+                      end
                     end
                   end
                 end
